@@ -359,6 +359,38 @@ def c04_e(ctx: Ctx):
             out.append(ctx.inc(R, f, st, "id written on a complex object expression"))
             continue
         out += _resets_after(ctx, R, f, st, obj, id_d, "the id change")
+        # the refreshed value must survive the rest of the iteration: nothing that runs afterwards may put the field back to 'unknown' (None) - for a job that
+        # is not initialised there is nothing to reload it from
+        cfg = ctx.cfg(f)
+        fresh = [n for n in cfg.stmt_nodes() if isinstance(n.ast, ast.Assign) and any(isinstance(t, ast.Attribute) and t.attr == "_cached_statepoint" and dotted(t.value) == obj for t in n.ast.targets)
+                 and not (isinstance(n.ast.value, ast.Constant) and n.ast.value.value is None)]
+        wipes = []
+        for n in cfg.stmt_nodes():
+            a = n.ast
+            if isinstance(a, ast.Assign) and any(isinstance(t, ast.Attribute) and t.attr == "_cached_statepoint" and dotted(t.value) == obj for t in a.targets) \
+                    and isinstance(a.value, ast.Constant) and a.value.value is None:
+                wipes.append((n, "assignment of None"))
+            for sub in _own(a):
+                for c in walk_no_nested(sub):
+                    if isinstance(c, ast.Call) and isinstance(c.func, ast.Attribute) and dotted(c.func.value) == obj:
+                        for tq in common.targets_of(ctx, f, c):
+                            g = ctx.prog.funcs.get(tq)
+                            if g is not None and any(isinstance(x, ast.Assign) and isinstance(x.value, ast.Constant) and x.value.value is None
+                                                     and any(isinstance(t, ast.Attribute) and t.attr == "_cached_statepoint" and dotted(t.value) == "self" for t in x.targets)
+                                                     for x in body_nodes(g)):
+                                wipes.append((n, f"{tq.split(':')[-1]}() sets it to None"))
+        kq = f"{f.qual}|cached-statepoint-survives|{obj}"
+        bad = None
+        for fr in fresh:
+            after = cfg.reachable([fr.id], kinds="n") - {fr.id}
+            for wn, why in wipes:
+                if wn.id in after and cfg.path(fr.id, {wn.id}, blocked={x.id for x in fresh} - {fr.id}, kinds="n", from_successors=True) is not None:
+                    bad = bad or (wn, why)
+        if fresh and bad:
+            out.append(ctx.viol(R, f, bad[0].ast, f"after {obj}._cached_statepoint received the new state point, {bad[1]} in the same pass: for a job that is not initialised the handle "
+                                "(and every shallow copy of it) then has no way to recover its state point - cached_statepoint / repr raise KeyError", construct=kq))
+        elif fresh:
+            out.append(ctx.ok(R, f, fresh[0].ast, f"the refreshed {obj}._cached_statepoint is not wiped again in the same pass", construct=kq))
     return out
 
 
